@@ -82,7 +82,7 @@ def main():
         ],
         "checks": checks,
         "not_applicable": na,
-        "notes": "All claims are bounded (DESIGN.md §4.3): corpus patterns in props/corpus.py, haystack lengths as stated in each evidence file. The sandbox delivers about 2.5 cores of throughput, so quick tiers are sized for a few minutes each. fix: commits in /repo are recorded under 'fixed' in known_findings/*.json.",
+        "notes": "Thorough tiers: props/thorough_ready.txt lists the checks whose deeper tier was run to completion and triaged on the unchanged tree (wall times there are for the build machine, about 2.5 cores); the others run the quick bounds under --tier thorough and say so in the evidence. All claims are bounded (DESIGN.md §4.3): corpus patterns in props/corpus.py, haystack lengths as stated in each evidence file. The sandbox delivers about 2.5 cores of throughput, so quick tiers are sized for a few minutes each. fix: commits in /repo are recorded under 'fixed' in known_findings/*.json.",
     }
     with open(os.path.join(VERIF, "MANIFEST.json"), "w") as f:
         json.dump(man, f, indent=1)
